@@ -423,3 +423,41 @@ pub fn time_rules(t: &TimeCase, log: &[Ev]) -> Vec<Violation> {
     }
     v
 }
+
+// ------------------------------------------------------------------ C14(b): task set
+
+pub fn set_rules(t: &SetCase, log: &[Ev]) -> Vec<Violation> {
+    let mut v = Vec::new();
+    let evs = comp_events(log);
+    let len = t.len.max(1) as usize;
+    let mut wakes = vec![0u32; len];
+    let mut yields = vec![0u32; len];
+    for (seq, e) in &evs {
+        match e {
+            CompEv::SetWakeBegin { idx, .. } => wakes[*idx as usize % len] += 1,
+            CompEv::SetBatch { indices, .. } => {
+                let mut seen = HashSet::new();
+                for i in indices {
+                    if *i >= len {
+                        v.push(Violation::new("c14_taskset_bad_index", format!("take_scheduled yielded index {} at seq {} (length {})", i, seq, len)));
+                        continue;
+                    }
+                    if !seen.insert(*i) {
+                        v.push(Violation::new("c14_taskset_duplicate", format!("take_scheduled yielded index {} twice in one batch at seq {}: {:?}", i, seq, indices)));
+                    }
+                    yields[*i] += 1;
+                }
+            }
+            _ => {}
+        }
+    }
+    for i in 0..len {
+        if yields[i] > wakes[i] {
+            v.push(Violation::new("c14_taskset_spurious", format!("sub-task {} was reported scheduled {} times but woken {} times (stale wake-ups were discarded before)", i, yields[i], wakes[i])));
+        }
+        if wakes[i] > 0 && yields[i] == 0 {
+            v.push(Violation::new("c14_taskset_lost_wake", format!("sub-task {} was woken {} times but never reported as scheduled", i, wakes[i])));
+        }
+    }
+    v
+}
